@@ -130,6 +130,15 @@ def check_one(ctx, cr, dct, remove, rng, what):
     # expectations must not follow)
     cr_arg, dct_arg = cr, dct
     cr, dct = _copy.deepcopy(cr), _copy.deepcopy(dct)
+    if rng.random() < 0.3:
+        # history: the same compiled routine has already been aggregated once (in keep mode, to compare the two modes): the
+        # aggregation under test starts from the routine as it was
+        try:
+            add_aggregated_resources(cr_arg, dct_arg, remove_decomposed=False)
+            ctx.stats["aggregated_once_before"] += 1
+            what = what + " (second aggregation of the same routine object)"
+        except Exception:
+            pass
     try:
         out = add_aggregated_resources(cr_arg, dct_arg, remove_decomposed=remove)
     except RecursionError as e:
